@@ -24,6 +24,11 @@ for d in sorted(glob.glob("/tmp/seed_out/C??_?")) + sorted(glob.glob("/tmp/seed_
         sid = sid[:3] + "_r3" + sid[3:]
     meta = json.load(open(os.path.join(d, "meta.json"))) if os.path.exists(os.path.join(d, "meta.json")) else {}
     confirmed = bool(r.get("applies") and r.get("demo_fails_with_change") and r.get("demo_passes_without") and r.get("suite_passes"))
+    rejected = open(os.path.join(d, "REJECTED")).read().strip() if os.path.exists(os.path.join(d, "REJECTED")) else None
+    if rejected:
+        # judged by me not to break the property as stated (reason kept in RESULTS.md and DESIGN 10a): not a seeded change
+        rows.append((sid, sid[:3], False, r.get("caught_by", []), "REJECTED: " + rejected[:200], r))
+        continue
     caught = r.get("caught_by", [])
     own = sid[:3]
     rows.append((sid, own, confirmed, caught, meta.get("title") or meta.get("what_changed", "")[:100], r))
